@@ -23,7 +23,8 @@ for P in "$@"; do
     echo "$P $V: demo_without=$R0 demo_with=$R1 tests='$T' confirmed=$OK"
     if [ $OK = yes ]; then
       S=/verif/seeded/M-$P-$V; mkdir -p $S
-      cp $D/patch.diff $S/patch.diff; cp $DEMO $S/; 
+      cp $D/patch.diff $S/patch.diff; cp $DEMO $S/; for X in $D/*; do case "$X" in */patch.diff|*/meta.json|*/__pycache__) ;; *) [ -f "$X" ] && cp "$X" $S/ ;; esac; done  # companion files of the demo too
+
       python3 - "$D/meta.json" "$S/meta.json" "$P" "$V" "$T" <<'PY'
 import json,sys
 src,dst,p,v,t=sys.argv[1:6]
